@@ -47,7 +47,8 @@ claim("C13", "DESIGN.md §2 C13",
       "property-based testing of op histories (encrypt/save/reload/unlock/lock/decrypt, pack/unpack) against a model + exhaustive crash-point enumeration of every file-system operation of a save through a counting fake file layer",
       "Generated wallets (seeded / xprv-only / watch-only / single-key accounts, channel keys) and passwords (ASCII, astral, combining, "
       "long; wrong variants: prefix, case, NFC/NFD, appended) run through histories; after every op public parts, restored secrets, "
-      "absence of plaintext seed/xprv/key hex in every file written, and refusal + no state change on wrong passwords are checked. "
+      "absence of plaintext seed/xprv/key hex in every file written, and refusal + no state change on wrong passwords are checked "
+      "(also for a wrong-password unlock call that runs while a right-password call is parked in one of its database look-ups). "
       "For the atomic-save clause every operation index of WalletStorage.write / Wallet.save observed in a dry run is crashed "
       "(and every write after 1, L/2, L-1 bytes) and the surviving file must equal the complete old or new JSON: fault enumeration "
       "per generated wallet pair, exploration over wallets.",
@@ -58,7 +59,8 @@ claim("C08", "DESIGN.md §2 C08",
       "All 2080 (block size, tx index) pairs for blocks of 1..64 transactions are enumerated with their genuine proof, every side-choosing "
       "position bit flipped, one bit flipped in every branch element, and shortened / lengthened branches; generated cases add chains "
       "of stored headers, real serialised transactions and 24 mutation kinds (other height, unknown height, height<=0, tx byte changed, "
-      "reply without merkle), delivered as argument and through a stub network. Oracle: is_verified <=> reference fold of the supplied "
+      "reply without merkle), delivered as argument and through a stub network; a 'history' part drives reorganisations through "
+      "Ledger.update_headers and re-verifies through the cached request_transactions path. Oracle: is_verified <=> reference fold of the supplied "
       "branch/position equals the root read from the stored header bytes and 0 < height < stored headers.",
       "Reference Merkle code self-tested on Bitcoin blocks 170 and 100000; side-neutral mutations are a stated don't-care; headers are "
       "written into the store directly (their validation is C07).")
@@ -69,7 +71,10 @@ claim("C10", "DESIGN.md §2 C10",
       "loop. Three generated sub-domains: honest<->honest sequences of requests (incl. blob contents that look like protocol JSON); real "
       "server vs scripted client (valid / pending / unknown / malformed / oversized / wrongly-typed requests) with a reference reading "
       "of everything the server wrote; real client vs scripted server applying one of 39 misbehaviours at request position 0..2, then an "
-      "honest transfer on a fresh connection. Timeouts are judged on the virtual clock. Sampled: exploration level.",
+      "honest transfer on a fresh connection; plus two/three honest servers racing for one blob, and BlobDownloader.download_blob with "
+      "generated, different peer_connect_timeout / blob_download_timeout against slow-but-honest, mute, refusing and unreachable "
+      "peers (honest must deliver, each attempt / unanswered request must end within its own timeout). Timeouts are judged on the "
+      "virtual clock. Sampled: exploration level.",
       "TCP is modelled by in-memory transports (connection_lost for RST/FIN, asyncio's fatal-error rule for exceptions in "
       "data_received); replies that still deliver exactly the right bytes are a don't-care for verification.")
 claim("C11", "DESIGN.md §2 C11",
@@ -88,7 +93,8 @@ claim("C17", "DESIGN.md §2 C17",
       "truncation of valid datagrams, 1-3 byte edits, repetition bombs to 65000, huge/negative lengths, non-canonical bencode, envelopes "
       "with schema deviations, semantically invalid requests) are fed to KademliaProtocol.datagram_received of a populated node: no "
       "exception may escape, a deterministic step budget detects decoder hangs, and for inputs the reference judges malformed the "
-      "routing table, data store and add/remove queues must be unchanged and the sender's failure recorded.",
+      "routing table, data store and add/remove queues must be unchanged and the sender's failure recorded. The thorough tier adds "
+      "atheris coverage-guided campaigns (libFuzzer) over the same target with the same oracle inside.",
       "Well-formedness is judged by the reference decoder + a schema written from datagram.py's documented layout; inputs only a lenient "
       "reading accepts are a don't-care; exceptions inside tasks spawned for well-formed requests are only labelled.")
 claim("C06", "DESIGN.md §2 C06",
@@ -105,7 +111,8 @@ claim("C04", "DESIGN.md §2 C04",
       "differential + metamorphic property testing: wallet-signed transactions and channel-signed claims verified by an independent SIGHASH_ALL / secp256k1 implementation; every single-bit / field mutation must stop validating",
       "Transactions with 1..8 (thorough 60) inputs spending generated P2PKH / claim / update / support outputs owned by 1-3 accounts are "
       "signed through Transaction.sign; the reference re-parses tx.raw, rebuilds the legacy SIGHASH_ALL preimage and verifies each strict-"
-      "DER signature and pubkey hash with its own curve arithmetic. Channel-signed streams/reposts/collections/supports: the reference "
+      "DER signature and pubkey hash with its own curve arithmetic; every 4th case also spends P2SH CLTV time locks through "
+      "Input.spend_time_lock + sign(accounts, extra key), verified over the redeem script. Channel-signed streams/reposts/collections/supports: the reference "
       "recomputes sha256(first outpoint || channel hash || message) from raw bytes and verifies the compact signature; is_signed_by must be "
       "True in memory and after a raw round trip and never True after any generated mutation (bit flips incl. full payload sweeps, other "
       "channel, other first input). Three real main-net legacy examples and reference-signed legacy-style claims must validate.",
@@ -142,7 +149,8 @@ claim("C12", "DESIGN.md §2 C12",
       "delay / duplication / reordering; 1..3 announcers announce a generated hash; every other node's value lookup must return them at "
       "once, after clock jumps of 1 h and 24 h - 5 min, and no longer at 24 h + 5 min. paging: 1..3 real storing nodes receive real store "
       "RPCs from 0..100 generated announcers; a fresh node's lookup must yield exactly the announcers. faults: a real searcher among scripted "
-      "endpoints (honest, silent, late, lossy, 20 hostile reply shapes, a sybil subnet inventing ever closer contacts, endless pages) with "
+      "endpoints (honest, silent, late, lossy, 20 hostile reply shapes, a sybil subnet inventing ever closer contacts, endless pages, "
+      "'deaf requesters' that talk to the searcher before the lookup but never answer its pings) with "
       "loss up to 40%: node and value lookups must end within (find requests + 1) x rpc_timeout of virtual time, send no more requests "
       "than contacts learned, yield only peers that replied / well-formed public peers, never the searcher, nothing twice.",
       "Networks, schedules and fault sets are sampled; 'nodes closest to its hash' is asserted weakly (documented in the evidence "
@@ -155,7 +163,7 @@ claim("C18", "DESIGN.md §2 C18",
       "pending, unknown, invalid names, >500 files to cross the batch flush), rows deleted, clean and unclean restarts, repeated restarts. "
       "After every restart: completed_blob_hashes is a subset of the files, every valid-named file has a finished row, every formerly "
       "finished row without file is pending, an immediately repeated restart reports exactly the files; after an API deletion the hash is "
-      "gone from set, directory and (when requested) database.",
+      "no longer reported as completed (what the deletion leaves in directory / database is recorded, not judged).",
       "Crash = the pending database task is dropped at a generated point (process death between file and database write); file-system "
       "level corruption of sqlite itself is not modelled.")
 claim("C19", "DESIGN.md §2 C19",
